@@ -15,7 +15,7 @@ import (
 func init() {
 	register(&propDef{
 		id:      "C07",
-		explain: "Structural necessary conditions of 'configured size limits bound what is buffered': (E6) limit-flow: starting from the fields Server.MaxRequestBodySize / HostClient.MaxResponseBodySize / RequestConfig.MaxRequestBodySize and the limit parameters of the exported *WithLimit / ReadLimitBody / ContinueReadBody entry points, every module function parameter that receives a limit is found by propagation through static calls; each such function either compares the limit in a branch condition, stores it into the N of an io.LimitedReader, or forwards it to a callee that itself does - a function that receives a limit and drops it is a violation; every function that compares a limit has a return of ErrBodyTooLarge (or of an error wrapping it) control-dependent on such a comparison; (R-default) in the serve loop the value handed to the body readers is, on every path of every iteration, the per-request override, the server limit, or the default - a value set while serving an earlier request is never read for a later one - and the connection-level value replaces a non-positive server limit by the default before the loop; (R-431) the default error handler answers 431 for a too-small read buffer, and the error response path sets Connection: close. Not decided: the numeric peak of buffered bytes; streamed bodies (unlimited by design).",
+		explain: "Structural necessary conditions of 'configured size limits bound what is buffered': (E6) limit-flow: starting from the fields Server.MaxRequestBodySize / HostClient.MaxResponseBodySize / RequestConfig.MaxRequestBodySize and the limit parameters of the exported *WithLimit / ReadLimitBody / ContinueReadBody entry points, every module function parameter that receives a limit is found by propagation through static calls; each such function either compares the limit in a branch condition, stores it into the N of an io.LimitedReader, or forwards it to a callee that itself does - a function that receives a limit and drops it is a violation; every function that compares a limit has a return of ErrBodyTooLarge (or of an error wrapping it) control-dependent on such a comparison; (R-default) in the serve loop the value handed to the body readers is, on every path of every iteration, the per-request override, the server limit, or the default - a value set while serving an earlier request is never read for a later one - and the connection-level value replaces a non-positive server limit by the default before the loop; (R-431) the default error handler answers 431 for a too-small read buffer, and the error response path sets Connection: close. (R-fwd) the value a limit-receiving function passes on to a limit-taking callee is the received limit on every path: it is never merged with a non-positive constant ('unlimited') except where the received limit itself was found non-positive. Not decided: the numeric peak of buffered bytes; streamed bodies (unlimited by design).",
 		run:     runC07,
 	})
 }
@@ -143,6 +143,7 @@ func runC07(p *Prog, r *Report) {
 	r.Floor("E6", "limit-receiving parameters", len(lims), 25)
 	type use struct{ compares, limitedReader, forwards, returnsTooLarge bool }
 	norder := 0
+	nfwd := 0
 	ninv := 0
 	var keys []limParam
 	for k := range lims {
@@ -237,6 +238,63 @@ func runC07(p *Prog, r *Report) {
 				ninv++
 				r.Check("R-inv", fmt.Sprintf("%s: the 'unlimited' test compares the limit itself with 0, not a value updated in a loop", name), !carried, p.Pos(bo.Pos()),
 					"the value compared with 0 is a running remainder of the limit carried around a loop: when the data read so far adds up to exactly the limit it becomes 0, which means 'no limit', and everything after that is buffered")
+			}
+		}
+		// R-fwd: what is forwarded to a limit-taking callee is the received limit on every path - not the received
+		// limit merged with the 'unlimited' constant on a path where the limit is positive (or untested)
+		for _, b := range k.fn.Blocks {
+			for _, in := range b.Instrs {
+				w, ok := in.(ssa.CallInstruction)
+				if !ok || w.Common().StaticCallee() == nil {
+					continue
+				}
+				f := w.Common().StaticCallee()
+				for i, a := range w.Common().Args {
+					if !lims[limParam{f, i}] || !derivesFromParam(a, prm) {
+						continue
+					}
+					nfwd++
+					var bad []string
+					seenV := map[ssa.Value]bool{}
+					var leaves func(v ssa.Value)
+					leaves = func(v ssa.Value) {
+						if seenV[v] {
+							return
+						}
+						seenV[v] = true
+						switch x := v.(type) {
+						case *ssa.Convert:
+							leaves(x.X)
+						case *ssa.Phi:
+							for ei, e := range x.Edges {
+								if kc, isK := constInt(e); isK && kc <= 0 {
+									// harmless only where the limit is known not to be positive
+									nonPositive := false
+									for _, g := range guardsOfDepth(x.Block().Preds[ei], 0) {
+										bo, isBo := g.Cond.(*ssa.BinOp)
+										if !isBo || !derivesFromParam(bo.X, prm) {
+											continue
+										}
+										if z, isZ := constInt(bo.Y); isZ && z == 0 {
+											if (bo.Op == token.GTR && !g.Pol) || (bo.Op == token.LEQ && g.Pol) {
+												nonPositive = true
+											}
+										}
+									}
+									if !nonPositive {
+										bad = append(bad, fmt.Sprintf("the constant %d on the edge from %s", kc, p.Pos(firstPos(k.fn, x.Block().Preds[ei].Instrs[0].Pos()))))
+									}
+									continue
+								}
+								leaves(e)
+							}
+						}
+					}
+					leaves(a)
+					sort.Strings(bad)
+					r.Check("R-fwd", fmt.Sprintf("%s: the limit passed on to %s is the received limit on every path", name, shortType(calleeName(w))), len(bad) == 0, p.Pos(w.Pos()),
+						"the forwarded value is merged with "+strings.Join(bad, ", ")+": on that path the callee runs without a limit although the caller was given a positive one (a size announced by the input itself - a gzip trailer, a header - is not a bound)")
+				}
 			}
 		}
 		r.Check("E6", name+": the limit it receives is compared, turned into a limited reader, or forwarded", u.compares || u.limitedReader || u.forwards, p.Pos(k.fn.Pos()),
@@ -349,6 +407,7 @@ func runC07(p *Prog, r *Report) {
 	}
 	r.Floor("R-order", "buffering reads in limit-rejecting functions that do not receive the limit themselves", norder, 1)
 	r.Floor("R-inv", "comparisons of a limit with the 'unlimited' sentinel 0", ninv, 5)
+	r.Floor("R-fwd", "limits forwarded to limit-taking callees", nfwd, 15)
 
 	// ---- R-default ----
 	res := p.serveLoop("C07")
